@@ -806,6 +806,9 @@ class Interp:
                     self._le(d, Lin.sym(r), args[1])
             if m in ("left", "right", "leftRef", "rightRef", "first", "last") and args and args[0] is not None and lin_lower(d, args[0]) >= 0:
                 self._le(d, Lin.sym(r), args[0])
+                # exact when 0 <= n <= len: the result has n elements
+                if lin_upper(d, args[0].add(src, -1)) <= 0:
+                    assign_lin(d, r, args[0])
         st.each(f)
         return Lin.sym(r)
 
